@@ -141,7 +141,7 @@ pub fn shrink_cli_case(c: &CliCase) -> Vec<CliCase> {
     }
     if c.route.stdin || c.route.out_file || c.route.flag.is_some() {
         push(&|n| {
-            n.route = Route { stdin: false, ext: if n.format == Format::Json { "json".into() } else { "efg".into() }, flag: None, out_file: false, stale_out: false, in_place: false }
+            n.route = Route { stdin: false, ext: if n.format == Format::Json { "json".into() } else { "efg".into() }, flag: None, out_file: false, stale_out: false, in_place: false, dev_stdin: false }
         });
     }
     if c.opts.p != Some(1) {
@@ -279,6 +279,7 @@ pub fn proc_metrics(m: &mut Metrics, out: &ProcOut) {
     m.add("processes", 1);
     m.add("fault_output_path_preexisting_with_longer_content", out.stale_out as u64);
     m.add("fault_output_path_is_the_input_file", out.in_place as u64);
+    m.add("fault_input_path_is_not_a_regular_file", out.dev_stdin as u64);
     if let Some(r) = &out.report {
         m.add("sched_steps", r["sched_steps"].as_u64().unwrap_or(0));
         m.add("sched_preemptions", r["sched_preemptions"].as_u64().unwrap_or(0));
